@@ -231,4 +231,6 @@ def run(model, rep):
     rule_uri(model, rep)
     rule_wallet(model, rep)
     # keys travel as base32 / hex text in every serialisation: the helper codecs are part of the round trip
-    _c12.rule_alphabets(model, _Renamed(rep, {"C12.e": "C15.f-codec-alphabets", "C12.f": "C15.f-key-codecs"}, "C15.x-"))
+    _c12.rule_alphabets(model, _Renamed(rep, {"C12.e": "C15.f-codec-alphabets", "C12.f": "C15.f-key-codecs"}, "C15.x-",
+                                          only=lambda s: ("b32" in s or "BASE64_CHARS" in s) and not s.startswith("libpass")))
+    rep.minimum("C15.f-key-codecs", 5)
